@@ -88,9 +88,9 @@ INNER = {'ref': 'Ref()', 'lu': 'pym.solvers.SolverDenseLU()', 'qr': 'pym.solvers
          'ldl': 'pym.solvers.SolverDenseLDL()', 'chol': 'pym.solvers.SolverDenseCholesky()',
          'splu': 'pym.solvers.SolverSparseLU()', 'diag': 'pym.solvers.SolverDiagonal()',
          'auto': 'pym.solvers.auto_determine_solver(A[0])',
-         'cg': 'pym.solvers.CG(tol=1e-11)', 'cg_jac': 'pym.solvers.CG(preconditioner=pym.solvers.DampedJacobi(w=0.8), tol=1e-11)',
-         'cg_sor': 'pym.solvers.CG(preconditioner=pym.solvers.SOR(w=1.2), tol=1e-11)',
-         'cg_ilu': 'pym.solvers.CG(preconditioner=pym.solvers.ILU(), tol=1e-11)'}
+         'cg': 'pym.solvers.CG(tol=1e-11, maxit=300)', 'cg_jac': 'pym.solvers.CG(preconditioner=pym.solvers.DampedJacobi(w=0.8), tol=1e-11, maxit=300)',
+         'cg_sor': 'pym.solvers.CG(preconditioner=pym.solvers.SOR(w=1.2), tol=1e-11, maxit=300)',
+         'cg_ilu': 'pym.solvers.CG(preconditioner=pym.solvers.ILU(), tol=1e-11, maxit=300)'}
 
 
 _CODE = {k: compile(v, k, 'eval') for k, v in INNER.items()}
@@ -206,8 +206,8 @@ class Hist:
     # -- bookkeeping ------------------------------------------------------------------------------------------------
     def fail(self, what, inputs, observed=None, expected=None, finding=None, final=None):
         if finding is not None:
-            k = (self.check_name, finding)
-            if k in Hist.seen_findings:   # one witness per known finding and check (only 5 failures per check are kept)
+            k = (self.check_name, finding, what[:24])
+            if k in Hist.seen_findings:   # one witness per known finding, violated clause and check (only 5 failures per check are kept)
                 return
             Hist.seen_findings.add(k)
         self.r.fail(what, dict(history=self.key, **inputs), observed, expected, replay_code=self.render(final), finding=finding)
@@ -787,6 +787,32 @@ def real_after_complex(r, tier, seed):
             h.finish()
 
 
+@bound('block rhs whose columns are linearly dependent (scaled duplicate; more columns than coupled dofs: 3 columns on a 4x4 matrix with 2 coupled dofs) followed by '
+       'a new rhs and a combination, 5 classes x modes N/T/H x real/complex rhs, n = 4: region of ' + F_DEP + ' (after the block, until the next update(); after '
+       'update() the same requests must be answered correctly)')
+def dependent_block(r, tier, seed):
+    rng = np.random.default_rng(seed + 12)
+    for cls in CLASSES:
+        full = np.ones((4, 4), dtype=bool)
+        two = np.zeros((4, 4), dtype=bool)
+        two[0, 1] = two[1, 0] = True
+        for pname, off in (('full', full), ('two-coupled', two)):
+            A = None
+            while A is None:
+                A = gen_matrix(rng, 4, off, (True,) * 4, cls)
+            for t, cplx in itertools.product('NTH', (False, True)):
+                h = Hist(r, 'dependent_block', (cls, pname, t, cplx), [dict(fmt='dense', Ad=A)], inner='ref', seed=seed + 13)
+                h.update(0)
+                h.solve(t, ('new', 'dup') if pname == 'full' else ('new', 'new', 'new'), cplx=cplx)
+                h.solve(t, 'new', 'v', cplx)
+                h.solve(t, 'comb', 'v', cplx)
+                h.solve(t, 'new', 'c', cplx)
+                h.update(0)
+                h.solve(t, 'new', 'v', cplx)
+                h.solve(t, 'rep', 'v', cplx)
+                h.finish()
+
+
 def bigger(rng, cls, n, pd=False, block=False):
     """well conditioned n x n matrix of class cls; pd: positive definite (rs/ch); block: one dof decoupled"""
     cplx = cls[0] == 'c'
@@ -911,5 +937,5 @@ def linsolve_wrapping(r, tier, seed):
 
 
 CHECKS = [('diagonal_indices', diagonal_indices), ('patterns_templates', patterns_templates), ('exhaustive_histories', exhaustive_histories),
-          ('update_changes_class', update_changes_class), ('x0_histories', x0_histories), ('real_after_complex', real_after_complex),
+          ('update_changes_class', update_changes_class), ('x0_histories', x0_histories), ('real_after_complex', real_after_complex), ('dependent_block', dependent_block),
           ('any_inner_solver', any_inner_solver), ('linsolve_wrapping', linsolve_wrapping)]
